@@ -110,8 +110,10 @@ class ChainNode(Entity):
         self.prev_node: ChainNode | None = None
         self.head_node: ChainNode | None = None
 
-        # CRAQ: track keys with uncommitted writes
+        # CRAQ: track keys with uncommitted writes, and the newest uncommitted
+        # sequence per key (a key stays dirty until that one is committed)
         self._dirty_keys: set[str] = set()
+        self._dirty_seq: dict[str, int] = {}
 
         # Pending write futures (HEAD: seq -> SimFuture)
         self._pending_writes: dict[int, SimFuture] = {}
@@ -207,12 +209,12 @@ class ChainNode(Entity):
         self._next_seq += 1
         seq = self._next_seq
 
+        # Mark dirty for CRAQ before the value becomes readable locally
+        if self._craq_enabled:
+            self._mark_dirty(key, seq)
+
         # Apply locally
         yield from self._store.put(key, value)
-
-        # Mark dirty for CRAQ
-        if self._craq_enabled:
-            self._dirty_keys.add(key)
 
         if self.next_node is not None:
             # Create ack future
@@ -235,11 +237,11 @@ class ChainNode(Entity):
             # Clean up
             self._pending_writes.pop(seq, None)
             if self._craq_enabled:
-                self._dirty_keys.discard(key)
+                self._mark_clean(key, seq)
         else:
             # Single-node chain (HEAD is also TAIL)
             if self._craq_enabled:
-                self._dirty_keys.discard(key)
+                self._mark_clean(key, seq)
 
         if reply_future is not None:
             reply_future.resolve({"status": "ok", "seq": seq})
@@ -257,6 +259,11 @@ class ChainNode(Entity):
 
         self._propagations_received += 1
 
+        # CRAQ: the key is uncommitted here from now on (marked before the value
+        # becomes readable locally)
+        if self._craq_enabled and self._role != ChainNodeRole.TAIL:
+            self._mark_dirty(key, seq)
+
         # Apply locally -- unless a newer write to this key was applied already
         # (messages can overtake each other); it is still passed down the chain.
         if seq >= self._applied_seq_by_key.get(key, 0):
@@ -266,9 +273,6 @@ class ChainNode(Entity):
             # The newer write may still be in flight to the store: take as long
             # as applying would, so this acknowledgement cannot precede it.
             yield self._store.write_latency
-
-        if self._craq_enabled:
-            self._dirty_keys.add(key)
 
         if self._role == ChainNodeRole.TAIL:
             # Send ack back to head
@@ -318,7 +322,17 @@ class ChainNode(Entity):
         metadata = event.context.get("metadata", {})
         key = metadata.get("key")
         if key and self._craq_enabled:
+            self._mark_clean(key, metadata.get("seq", 0))
+
+    def _mark_dirty(self, key: str, seq: int) -> None:
+        self._dirty_keys.add(key)
+        self._dirty_seq[key] = max(self._dirty_seq.get(key, 0), seq)
+
+    def _mark_clean(self, key: str, committed_seq: int) -> None:
+        """The key is clean only once its newest uncommitted write is committed."""
+        if committed_seq >= self._dirty_seq.get(key, 0):
             self._dirty_keys.discard(key)
+            self._dirty_seq.pop(key, None)
 
     def _handle_read(
         self,
